@@ -50,7 +50,7 @@ func c04points(rng *rand.Rand) (names []string, pts []*big.Int) {
 
 func runC04(c *mon.Ctx) {
 	env := GetEnv()
-	npoly := c.Pick(24, 200)
+	npoly := c.Pick(24, 600)
 	refBudget := c.Pick(3, 10)
 	for p := 0; p < npoly; p++ {
 		if !c.Mine(p) {
